@@ -15,6 +15,9 @@ RULE = ('cases: (a) spectrum of a record through Signal/AccSignal.gen_fa_spectru
         '(d) relational clauses evaluated in Coq on implementation outputs: object-level = array-level, linearity, trailing zeros, Parseval (even N), '
         'fas2values(fas(x)) = padded x - mean - Nyquist (even N, strict length), fas2values structure on arbitrary half spectra (representable samples at Q, '
         'all samples by interval for N<=32), max_fa_period against argmax of re^2+im^2 of the object\'s own spectrum (near-ties skipped as fragile); '
+        '(d\') the Signal / AccSignal handed back by fas2signal(fas, dt, stype) (arbitrary complex half spectra and spectra of records with a mean, any length incl. '
+        'non-powers of two, non-zero first bin): its .fa_spectrum / .fa_freqs (either order) as a spectrum case of ITS OWN record (real part of .values; the imaginary '
+        'rounding residue must be < 1e-14 sum|values|, else skipped as fragile), object-level = generate_fa_spectrum(obj), every bin by interval for 4 < N <= 32; '
         '(e) calc_fourier_moment(asig, n) (n in 0..6) and get_bandwidth_boore_2003(asig) on Signal / AccSignal objects and on stand-in objects with '
         'arbitrary ascending grids and complex spectra: the object\'s own fa_frequencies / fa_spectrum (real and imaginary parts) shipped, pi = the '
         'rational value of the float np.pi, the COMPLEX model moment (complex square of the spectrum) compared with the complex128 result within '
@@ -135,6 +138,26 @@ def impl_history(cls, x0, x, dt, pre, order, modify=None):
     return np.array(sig.values, dtype=float), fa, fr
 
 
+def impl_fas2signal_object(re, im, dt, stype, order):
+    """the Signal / AccSignal handed back by the inverse helper fas2signal(fas, dt, stype) is an ordinary object: the spectrum and the
+    grid it reports (.fa_spectrum / .fa_freqs, read in either order) and the array-level generate_fa_spectrum(obj) belong to the
+    object's OWN record (obj.values: the reconstructed series, without the mean / Nyquist component of whatever `fas` came from,
+    2*len(fas) samples - not necessarily a power of two), not to the half spectrum that was handed in.
+    Returns (record now (complex array as stored), object-level spectrum, object-level freqs, array-level spectrum, array-level freqs)"""
+    from eqsig.fns import frequency as fq
+    fas = np.array(re, dtype=float) + 1j * np.array(im, dtype=float)
+    keep = fas.copy()
+    sig = fq.fas2signal(fas, dt, stype=stype)
+    if order:
+        fr = np.array(sig.fa_freqs); fa = np.array(sig.fa_spectrum)
+    else:
+        fa = np.array(sig.fa_spectrum); fr = np.array(sig.fa_freqs)
+    afa, afr = fq.generate_fa_spectrum(sig)
+    if not np.array_equal(keep, fas):
+        raise ImplError('InputMutated: the half spectrum handed to fas2signal was modified (by the call or by reading the spectrum of the returned object)')
+    return np.array(sig.values), fa, fr, np.array(afa), np.array(afr)
+
+
 def impl_fas2values(re, im, dt, as_signal=None):
     from eqsig.fns import frequency as fq
     fas = np.array(re, dtype=float) + 1j * np.array(im, dtype=float)
@@ -248,6 +271,8 @@ def replay_call(rp):
         return impl_boore(a['kind'], a['values'] if a['kind'] != 'standin' else (a['fr'], a['re'], a['im']), a.get('dt'))[3]
     if 'max_fa_period' in f:
         return impl_max_fa_period(a.get('cls', 'AccSignal'), a['values'], a['dt'], a.get('after_gen_fa_spectrum'))[2]
+    if 'fas2signal' in f and 'stype' in a:
+        return impl_fas2signal_object(a['re'], a['im'], a['dt'], a['stype'], a.get('read_freqs_first', False))
     if 'fas2' in f and 're' in a:
         return impl_fas2values(a['re'], a['im'], a['dt'])
     if 'values' in a and 'which' in a:
@@ -478,6 +503,78 @@ def run(rep, rng, tier):
         c.replay = {'function': site, 'args': args, 'impl': {'values_now': xcur, 'fa': fa, 'freqs': fr}}
         c.key = core.digest([site, args])
         cases.append(c)
+
+    # ---- objects handed back by the inverse helper: fas2signal(fas, dt, stype) returns a Signal / AccSignal; the spectrum / grid that object
+    #      reports (and generate_fa_spectrum of it) is dt x DFT of the object's OWN record padded to the next power of two >= 2 len(fas).
+    #      Half spectra with a non-zero first bin (the record they came from had a mean) and lengths that are not a power of two
+    #      (e.g. the unpadded calc_fa_spectrum of a 100-sample record) are the ones where `fas` itself is not that spectrum.
+    n_f2s = 16 if quick else 240
+    f2s_terms = [450 if quick else 12000]
+    for k in range(n_f2s):
+        exact = (k % 2 == 0)
+        src = k % 4
+        dt = gens.dyadic_dt(rng, 0, 6) if exact else rng.choice([0.01, 0.02, 0.005, rng.uniform(1e-3, 0.5)])
+        origin = None
+        if src in (0, 1):      # arbitrary complex half spectrum, any length
+            M = rng.choice([1, 2, 3, 3, 4, 5, 6, 7, 8, 9, 10, 12, 13, 16]) if k % 8 < 4 else rng.randint(17, 48 if quick else 200)
+            mk = exact_record if exact else tol_record
+            re, im = np.array(mk(rng, M), dtype=float), np.array(mk(rng, M), dtype=float)
+            if re[0] == 0 and rng.random() < 0.8:
+                re[0] = float(rng.randint(1, 9)) if exact else rng.uniform(0.1, 3)
+            if rng.random() < 0.5:
+                im[0] = 0.0      # first bin of the spectrum of a real record is real
+        else:                  # half spectrum of a real record with a clear mean: padded (power-of-two) or unpadded (npts/2 bins, any length)
+            npts = rng.choice([4, 6, 7, 10, 12, 20, 24, 50, 100]) if rng.random() < 0.6 else rng.randint(4, 48 if quick else 200)
+            x0 = exact_record(rng, npts) if exact else tol_record(rng, npts)
+            x0 = x0 + (float(rng.randint(1, 5)) if exact else rng.uniform(0.3, 2.0) * (float(np.max(np.abs(x0))) or 1.0))
+            w0 = 2 if src == 2 else 1
+            r0 = guarded(impl_spectrum, 'Signal', w0, x0, dt, None, None, True, False)
+            origin = {'spectrum_of': [float(v) for v in x0], 'through': WHICH[w0]}
+            if isinstance(r0, ImplError):
+                bad(WHICH[w0], origin, r0)
+                continue
+            re, im = np.array(r0[0].real, dtype=float), np.array(r0[0].imag, dtype=float)
+            M = len(re)
+            if M == 0:
+                continue
+        stype = rng.choice(['signal', 'acc'])
+        order = rng.random() < 0.5
+        cls = 'Signal' if stype == 'signal' else 'AccSignal'
+        site = 'fas2signal[%s] -> %s.fa_spectrum/fa_freqs' % (stype, cls)
+        args = {'re': [float(v) for v in re], 'im': [float(v) for v in im], 'dt': float(dt), 'stype': stype, 'read_freqs_first': order}
+        if origin:
+            args['fas_origin'] = origin
+        r = guarded(impl_fas2signal_object, re, im, dt, stype, order)
+        if isinstance(r, ImplError):
+            bad(site, args, r)
+            continue
+        vals, fa, fr, afa, afr = r
+        xr = np.array(vals.real, dtype=float)
+        xi = np.array(vals.imag, dtype=float) if np.iscomplexobj(vals) else np.zeros(len(xr))
+        # the stored record is the complex ifft output; its imaginary part is rounding noise of a Hermitian inverse.  The case ships the real
+        # part as the record; if the imaginary part were not negligible against the comparison tolerance the case is not decidable here (the
+        # structure of fas2signal's record itself is judged by the CInv / CRound cases)
+        if sum(abs(frac(v)) for v in xi) * 10 ** 14 > sum(abs(frac(v)) for v in xr):
+            stats['fragile_skipped'] += 1
+            continue
+        kl = 'fas2signal-object/%s/len%s/bin0%s' % ('exact' if exact else 'tol', 'pow2' if is_pow2(M) else 'other', 'zero' if (re[0] == 0 and im[0] == 0) else 'nonzero')
+        impl = {'values_now_real_part': xr, 'values_now_max_abs_imag': float(np.max(np.abs(xi))) if len(xi) else 0.0, 'fa': fa, 'freqs': fr}
+        c = spec_case(cls, 0, xr, dt, None, None, True, fa, fr, False)
+        c.site = site
+        c.klass = kl
+        c.nontrivial = bool(M >= 2 and (np.any(re != 0) or np.any(im != 0)))
+        c.replay = {'function': site, 'args': args, 'impl': impl}
+        c.key = core.digest([site, args])
+        cases.append(c)
+        a = agree_case('agree:object_vs_array[fas2signal]', args, xr, dt, (fa, fr), (afa, afr))
+        a.klass = 'agree:object_vs_array[fas2signal]'
+        a.nontrivial = c.nontrivial
+        cases.append(a)
+        N = expected_n(0, len(xr), None, None, True)
+        if 4 < N <= 32 and len(fa) == N // 2 and f2s_terms[0] > 0:
+            gl = pick(rng, spectrum_goals(cls, 0, xr, dt, None, None, True, fa, 'f%d' % k), 80 if quick else 600, N)
+            f2s_terms[0] -= len(gl) * N
+            add_goals(gl, c)
 
     # ---- exhaustive option sweep on one short exact record per length (all entry points, p2_plus 0..3, n around npts)
     sweep_lens = [2, 3, 5, 8] if quick else list(range(2, 20))
